@@ -200,9 +200,10 @@ def confirm(ctx, cases, recs, bad, prefixes, rerun):
         pending = still
     for i, why, kf in pending:
         vlib.log("UNREPRODUCED %s case %d (%s) in 5 re-runs: not a verdict" % (ctx.prop, i, why))
-    ctx.extra["failing_cases_total"] = len(bad)
-    if not confirmed and not ctx.known_hits:
-        raise vlib.Infra("%s: %d judge failures, none reproduced" % (ctx.prop, len(bad)))
+    ctx.extra["failing_cases_total"] = ctx.extra.get("failing_cases_total", 0) + len(bad)
+    ctx.extra["unreproduced"] = ctx.extra.get("unreproduced", 0) + (len(sel) - confirmed)
+    # A failure that does not reproduce (timing under real concurrency, a starved process) is no verdict: it is logged
+    # above and counted in the evidence, and the check goes on.
 
 
 def model_check(ctx, cfgs):
